@@ -68,6 +68,7 @@ pub use interface::*;
 #[cfg(mathcat_verif)]
 pub mod verif {
     pub use crate::navigate::{verif_nav_state, verif_take_nav_log};
+    pub use crate::braille::verif_last_braille;
 }
 
 #[cfg(test)]
